@@ -40,6 +40,12 @@ type Solver struct {
 	Log       io.Writer // optional transcript
 	pending   strings.Builder
 	LastErr   string
+	// OnRestart is called after the solver process had to be replaced (it
+	// died, or the watchdog killed it because it ignored its own timeout):
+	// the caller re-asserts whatever must hold in the fresh process.
+	OnRestart func()
+	Restarts  int
+	fresh     bool // the process was replaced during the last check: there is no frame to pop
 }
 
 func NewSolver(kind string, timeoutMs int) (*Solver, error) {
@@ -163,13 +169,34 @@ func (s *Solver) checkRaw() Result {
 	s.flush()
 	t0 := time.Now()
 	s.Stats.Queries++
+	// z3's :timeout is not honoured inside some preprocessing steps; a
+	// wall-clock watchdog kills a process that overstays three times its limit
+	proc := s.cmd.Process
+	killed := false
+	wd := time.AfterFunc(time.Duration(3*s.TimeoutMs)*time.Millisecond+5*time.Second, func() {
+		killed = true
+		proc.Kill()
+	})
+	defer wd.Stop()
 	for {
 		line, err := s.readLine()
 		if err != nil {
-			s.Stats.Errors++
-			s.LastErr = "solver died: " + err.Error()
+			wd.Stop()
+			if killed {
+				s.Stats.UnknownN++
+				s.LastErr = "solver exceeded its time limit and was replaced"
+			} else {
+				s.Stats.Errors++
+				s.LastErr = "solver died: " + err.Error()
+			}
 			s.Close()
+			s.pending.Reset()
 			s.start()
+			s.Restarts++
+			s.fresh = true
+			if s.OnRestart != nil {
+				s.OnRestart()
+			}
 			s.Stats.Time += time.Since(t0)
 			return Unknown
 		}
@@ -207,7 +234,11 @@ func (s *Solver) checkRaw() Result {
 }
 
 // Check decides the current assertion set.
-func (s *Solver) Check() Result { return s.checkRaw() }
+func (s *Solver) Check() Result {
+	r := s.checkRaw()
+	s.fresh = false
+	return r
+}
 
 // CheckWith decides assertions ∧ t without keeping t.
 func (s *Solver) CheckWith(t *Term) Result {
@@ -217,8 +248,16 @@ func (s *Solver) CheckWith(t *Term) Result {
 	str := s.define(t)
 	s.send("(push 1)\n(assert " + str + ")\n")
 	r := s.checkRaw()
-	s.send("(pop 1)\n")
+	s.pop()
 	return r
+}
+
+func (s *Solver) pop() {
+	if s.fresh {
+		s.fresh = false
+		return
+	}
+	s.send("(pop 1)\n")
 }
 
 // ModelWith returns a model of assertions ∧ t for the given vars (nil if not sat).
@@ -233,7 +272,7 @@ func (s *Solver) ModelWith(t *Term, vars []*Term) (map[string]uint64, Result) {
 	if r == Sat {
 		m = s.getValues(vars)
 	}
-	s.send("(pop 1)\n")
+	s.pop()
 	return m, r
 }
 
